@@ -3,6 +3,8 @@ SPECIFICATION Spec
 CONSTANTS
   ChSC <- Ch_RU
   ChCS <- Ch_RU
+  SeqBase = 0
+  MidBase = 0
   Budget = 60000
   Workload <- WL_RO_3slices
   MaxFlushS = 1
